@@ -36,13 +36,13 @@ func (p *PoolTracker) onRelease(m any) {
 		return
 	}
 	e := p.env
-	e.mu.Lock()
+	e.imu.Lock()
 	p.Releases++
 	dbl := p.released[msg]
 	who, isHeld := p.held[msg]
 	p.released[msg] = true
 	en := p.Enabled
-	e.mu.Unlock()
+	e.imu.Unlock()
 	if !en {
 		return
 	}
@@ -77,13 +77,13 @@ func (p *PoolTracker) onAcquire(m any, recycled bool) {
 		return
 	}
 	e := p.env
-	e.mu.Lock()
+	e.imu.Lock()
 	delete(p.released, msg)
 	if recycled {
 		p.Recycled++
 	}
 	en := p.Enabled
-	e.mu.Unlock()
+	e.imu.Unlock()
 	if !en || !recycled {
 		return
 	}
@@ -97,14 +97,14 @@ func (p *PoolTracker) onAcquire(m any, recycled bool) {
 
 // Hold marks msg as legitimately held by the application.
 func (p *PoolTracker) Hold(msg *pool.Message, who string) {
-	p.env.mu.Lock()
+	p.env.imu.Lock()
 	p.held[msg] = who
-	p.env.mu.Unlock()
+	p.env.imu.Unlock()
 }
 
 // Unhold ends an application hold.
 func (p *PoolTracker) Unhold(msg *pool.Message) {
-	p.env.mu.Lock()
+	p.env.imu.Lock()
 	delete(p.held, msg)
-	p.env.mu.Unlock()
+	p.env.imu.Unlock()
 }
